@@ -107,14 +107,16 @@ PROPS = {
                    "spelling.prefix.long": 250, "spelling.escape.optional": 150, "spelling.escape.required-for-last": 150,
                    "spelling.terminator": 100, "spelling.sub.short-flag": 50, "spelling.sub.long-flag": 50, "spelling.pos.multi": 500},
         "rule": "conventional-class command trees (flags SetTrue/SetFalse/Count, options Set/Append with num_args in {1, 2, 1..=3, 2..=3, 1.., 0.., 0..=1}, "
-                "delimiters, require_equals, terminators, positionals with a multi-valued/last final one, subcommands with aliases and "
+                "delimiters, require_equals, terminators, positionals with a multi-valued/last final one, the low-index-multiple shape (required `1..` "
+                "positional + one required final positional), allow_negative_numbers / allow_hyphen_values options with dash-looking values, "
+                "subcommand_precedence_over_arg, hidden aliases, merged `-vS` clusters, subcommands with aliases and "
                 "short/long flag forms, infer_long_args/infer_subcommands, depth <= 2) x valid intents (ordered occurrences whose values are "
                 "unique ids `<arg>o<occ>v<k>`, delimiter tokens with empty pieces) x spellings (canonical + 3 random styles: =/space, attached "
                 "short, -o=v, clusters with option last, aliases, unique prefixes, optional/required `--`, terminators). Oracle: the line "
                 "parses; per argument the raw occurrences equal the intent's (after the action's fold and delimiter split), get_raw == "
                 "flattened occurrences, sources, flag/count values, subcommand chain; indices of command-line values are distinct and "
                 "sorted like the argv places the renderer recorded. distinct_nontrivial = distinct (spec, argv) with >= 1 token.",
-        "assumptions": COMMON_ASSUME + ["the class is where the documented grammar is unambiguous: values never start with '-', never equal or prefix a subcommand name; "
+        "assumptions": COMMON_ASSUME + ["the class is where the documented grammar is unambiguous: values start with '-' only for arguments that allow negative numbers / hyphen values (never inside a low-index pair), never equal or prefix a subcommand name; "
                                         "a multi-valued occurrence is closed by a following flag/option, its terminator, `--`, the end (options also by reaching the maximum or an attached value)"],
         "technique": "reference-model monitor: intent -> spellings -> observed ArgMatches compared with the intent (conservation/exactly-once on uniquely tagged values, index ordering)",
         "level_text": "Each generated line is a history with unique value ids; attribution is decided exactly (multiset + order + occurrence boundaries), 10^5-10^6 lines per quick run.",
@@ -230,13 +232,13 @@ PROPS = {
         "thorough_ms": 300000,
         "floors": {"faultfree.accepted": 5000, "fault.UnknownLong": 2500, "fault.SurplusPositional": 500, "fault.DropRequired": 500, "fault.RepeatSet": 150,
                    "fault.TooFewValues": 500, "fault.NoValueAtEnd": 500, "fault.ValueOnFlag": 1000, "fault.BadTypedValue": 250, "fault.MissingEquals": 40,
-                   "fault.MissingSubcommand": 50, "fault.NonUtf8": 1500, "contract.DisplayHelp": 50, "contract.DisplayVersion": 15,
+                   "fault.MissingSubcommand": 50, "fault.NonUtf8": 1500, "fault.UnknownWord": 150, "contract.DisplayHelp": 50, "contract.DisplayVersion": 15,
                    "relations.conflict-error": 1000, "relations.missing-error": 1000, "suggestion.arg": 50, "suggestion.subcommand": 15},
-        "rule": "conventional trees (as C02, with typed options and subcommand_required levels) x valid intents: (a) the fault-free rendering must be "
-                "accepted; (b) 12 single-fault injectors, each applied only where it breaks exactly one rule (unknown long/short in front, surplus "
+        "rule": "conventional trees (as C02, with typed options, subcommand_required levels and args_conflicts_with_subcommands levels) x valid intents: (a) the fault-free rendering must be "
+                "accepted; (b) 13 single-fault injectors, each applied only where it breaks exactly one rule (unknown long/short in front, surplus "
                 "positional, dropped required option, repeated non-overriding Set, one value too few, option at end without value, `--flag=v`, "
                 "out-of-range / non-numeric typed value, detached value under require_equals, omitted required subcommand, non-UTF-8 into a String "
-                "parser) must be rejected with the justified kind; over random relation graphs every ArgumentConflict / MissingRequiredArgument must "
+                "parser, unknown or misspelled plain word where only a subcommand name could stand) must be rejected with the justified kind; over random relation graphs every ArgumentConflict / MissingRequiredArgument must "
                 "be backed by a declared conflict among the supplied arguments / a rule that requires something absent, and no other kind may occur; "
                 "(c) every error seen (incl. from hostile argv): (use_stderr, exit_code) == (false,0) for DisplayHelp/DisplayVersion else (true,2), "
                 "help/version only when the line contains a help/version-looking token; (d) SuggestedArg/Subcommand/Value context names something defined.",
@@ -363,15 +365,18 @@ PROPS = {
         "quick_ms": 15000,
         "thorough_ms": 240000,
         "floors": {"roundtrip.ok": 10000, "agree.ok": 15000, "agree.err": 15000, "update.ok": 5000, "update.unnamed-field-kept": 5000, "value_enum.names": 500,
-                   "type.A": 500, "type.B": 500, "type.C": 500, "type.D": 500, "type.E": 500, "type.F": 500, "type.G": 500, "type.L": 500},
-        "rule": "corpus of 8 derived Parser types (+ Args, 3 Subcommand enums, 1 ValueEnum) spanning bool / SetFalse bool / counter / T / Option<T> / "
+                   "type.A": 500, "type.B": 500, "type.C": 500, "type.D": 500, "type.E": 500, "type.F": 500, "type.G": 500, "type.L": 500,
+                   "update.sub.option.same-variant": 300, "update.sub.option.other-variant": 300, "update.sub.plain.same-variant": 300, "update.sub.option.no-subcommand-named": 150},
+        "rule": "corpus of 10 derived Parser types (+ Args, 3 Subcommand enums, 1 ValueEnum) spanning bool / SetFalse bool / counter / T / Option<T> / "
                 "Option<Option<T>> / Vec<T> / Option<Vec<T>> / delimited Vec / fixed-arity Vec / last Vec / positionals / default_value_t / "
                 "default_values_t / default_missing_value / env / rename_all / flatten / global / optional, required, nested and external subcommands / "
                 "value_enum with aliases, renamed and skipped variants. Per type: random values are printed to argv and parsed back (round trip); "
                 "the printed line and 3 mutations of it (token dropped/duplicated/swapped/suffixed, --bogus, -h, --, empty, overflow) are parsed by "
                 "T::try_parse_from and by T::command() + a hand-written extractor (by shape, builder API only): Ok/Err and error kind must agree, "
                 "values must be equal, FromArgMatches on the command's matches too; update frame: x.try_update_from(argv naming a random "
-                "subset of another value's fields) must set exactly the named fields; ValueEnum: every name/alias maps back (both ignore_case "
+                "subset of another value's fields) must set exactly the named fields, for flat types and for Option<Subcommand> / Subcommand fields "
+                "(same variant named: named variant fields replaced and the others kept; other variant or nothing held: the value on the line; no "
+                "subcommand named: field kept); ValueEnum: every name/alias maps back (both ignore_case "
                 "settings, upper-cased), no duplicates, skipped variant unreachable.",
         "assumptions": COMMON_ASSUME + ["Vec<Vec<T>> fields need clap's unstable-v5 feature, which would change clap for every monitor: that one shape is not in the corpus",
                                         "the corpus is fixed at compile time: a change in clap_derive is picked up by recompiling the harness (the check always rebuilds)"],
